@@ -639,10 +639,11 @@ class _OrbitDynamicsService(_DynamicsServiceBase):
                 state_vector_cls=SynodicStateVector,
                 frame=ReferenceFrame.ROTATING,
             )
-            self._trajectory = traj
             return traj
 
-        return self.get_or_create(cache_key, _factory)
+        traj = self.get_or_create(cache_key, _factory)
+        self._trajectory = traj
+        return traj
 
     def manifold(self, stable: bool = True, direction: Literal["positive", "negative"] = "positive") -> "Manifold":
         """Create a manifold for the orbit.
